@@ -68,10 +68,21 @@ def run(shard, ctx):
     sys.addaudithook(hook)
 
     # 1. every module imports
-    import pyscsi
+    try:
+        import pyscsi
+    except Exception as e:  # noqa: BLE001
+        ctx.case((cfg, "import", "pyscsi"), True)
+        ctx.fail("C19:%s.import_fails.pyscsi" % cfg, "import pyscsi raised %s: %s" % (type(e).__name__, e), {"configuration": cfg, "module": "pyscsi"}, exc=e)
+        return
 
     mods = []
-    for mi in pkgutil.walk_packages(pyscsi.__path__, "pyscsi."):
+
+    def walk_error(name):
+        e = sys.exc_info()[1]
+        ctx.case((cfg, "import", name), True)
+        ctx.fail("C19:%s.import_fails.%s" % (cfg, name.split(".")[-1]), "import %s raised %s: %s" % (name, type(e).__name__, e), {"configuration": cfg, "module": name}, exc=e)
+
+    for mi in pkgutil.walk_packages(pyscsi.__path__, "pyscsi.", onerror=walk_error):
         ctx.case((cfg, "import", mi.name), True, sample={"configuration": cfg, "import": mi.name} if ctx.want_sample() else None)
         try:
             importlib.import_module(mi.name)
@@ -79,8 +90,13 @@ def run(shard, ctx):
         except Exception as e:  # noqa: BLE001
             ctx.fail("C19:%s.import_fails.%s" % (cfg, mi.name.split(".")[-1]), "import %s raised %s: %s" % (mi.name, type(e).__name__, e), {"configuration": cfg, "module": mi.name}, exc=e)
     ctx.count("modules_imported", len(mods))
-    import pyscsi.pyiscsi.iscsi_device as idm
-    import pyscsi.pyscsi.scsi_device as sdm
+    try:
+        import pyscsi.pyiscsi.iscsi_device as idm
+        import pyscsi.pyscsi.scsi_device as sdm
+    except Exception as e:  # noqa: BLE001
+        ctx.fail("C19:%s.device_module_unimportable" % cfg, "device modules cannot be imported in configuration %s: %s: %s" % (cfg, type(e).__name__, e),
+                 {"configuration": cfg}, exc=e)
+        return
 
     if sdm._has_sgio != shard["sgio"] or idm._has_iscsi != shard["iscsi"]:
         ctx.inconclusive_because("configuration %s not in effect: _has_sgio=%s _has_iscsi=%s" % (cfg, sdm._has_sgio, idm._has_iscsi))
